@@ -86,8 +86,11 @@ def carry_bounds(ch, mh, mb):
     return None
 
 
-def drive(mh, mb, reads, **kw):
-    """-> dict(raised, calls, wire, reads_accepted, closed, bound_violation)"""
+def drive(mh, mb, reads, lazy_worker=False, **kw):
+    """-> dict(raised, calls, wire, reads_accepted, closed, bound_violation, max_queued = the largest number of
+    requests already queued at the moment a read was accepted)
+    lazy_worker: the worker is busy elsewhere -- queued tasks are not serviced between the reads, only
+    at the end (with channel_request_lookahead >= 1 the channel stays readable while tasks are queued)"""
     ch, sock, srv = make(mh, mb, **kw)
     res = {"raised": None, "reads_accepted": 0, "bound_violation": None, "reset": False}
     orig = ch.send_continue
@@ -102,7 +105,7 @@ def drive(mh, mb, reads, **kw):
         guard = 0
         while guard < 50:
             guard += 1
-            if srv.pending:
+            if srv.pending and not (lazy_worker and not final[0]):
                 c = srv.pending.pop(0)
                 c.service()
                 continue
@@ -114,15 +117,25 @@ def drive(mh, mb, reads, **kw):
                 continue
             break
 
+    final = [False]
+    res["max_queued"] = 0
     try:
         for d in reads:
             pump()
+            # a lazy worker gets round to the connection only when the I/O thread cannot read on
+            guard2 = 0
+            while lazy_worker and ch.connected and not ch.readable() and srv.pending and guard2 < 50:
+                guard2 += 1
+                srv.pending.pop(0).service()
+                pump()
             if not ch.connected or not ch.readable():
                 break
+            res["max_queued"] = max(res["max_queued"], len(ch.requests))     # queued when the read was accepted
             ch.received(d)
             res["reads_accepted"] += 1
             if res["bound_violation"] is None:
                 res["bound_violation"] = carry_bounds(ch, mh, mb)
+        final[0] = True
         pump()
     except Exception as e:
         res["raised"] = "%s: %s" % (type(e).__name__, e)
